@@ -183,7 +183,7 @@ def _policy_flags(pm, fn: FuncInfo) -> set[str]:
     def has_switch(node) -> list:
         hits = []
         for head in chain_heads(node):
-            sw = switch_cases(head)
+            sw = switch_cases(head, node)
             if sw is not None and "solver" in sw[0] and any(isinstance(k, str) and k in SOLVER_CASES for ks, _ in sw[1] for k in ks):
                 hits.append(sw)
         return hits
@@ -531,7 +531,7 @@ def _pins_full(call: ast.Call, ff: FuncFacts) -> bool:
 
 def _dict_has_key(pm, fn: FuncInfo, ff: FuncFacts, e: ast.expr, key: str) -> bool:
     for p in ff.paths(e, spine_only=False):
-        if any(o.kind == "dictval" and o.name == key for o in p.ops):
+        if any((o.kind == "dictval" and o.name == key) or (o.kind == "arg" and o.name == "dict" and o.other == key) for o in p.ops):
             return True
         if p.atom.kind == "selfattr" and fn.cls is not None and not p.ops:
             attr = p.atom.name.split(".", 1)[1]
@@ -621,7 +621,7 @@ def _exhaustive(chk):
     pm = chk.pm
     for fn in pm.all_functions():
         for head in chain_heads(fn.node):
-            sw = switch_cases(head)
+            sw = switch_cases(head, fn.node)
             if sw is None or "solver" not in sw[0]:
                 continue
             subj, cases, default = sw
